@@ -3,6 +3,7 @@ package main
 import (
 	"fmt"
 	"go/token"
+	"go/types"
 	"strings"
 
 	"golang.org/x/tools/go/ssa"
@@ -720,4 +721,75 @@ func sameValueOrLoad(a, b ssa.Value) bool {
 		}
 	}
 	return false
+}
+
+func init() { registerRule("R-EVALALL", false, ruleEvalAll) }
+
+// ruleEvalAll: an expression list is evaluated in full.
+func ruleEvalAll(c *Ctx) *RuleResult {
+	r := newResult("R-EVALALL", "every expression of an expression list is compiled, also those beyond the number of targets (their values are discarded, their side effects are not): in astcomp.(*compiler).compileExpList, the one place where `local a, b = e1, e2, e3` / `a, b = …` / `for … in e1, …` lists are compiled, the expressions parameter is not only iterated over a prefix cut to the number of destination registers — a loop over the remainder compiles the rest")
+	p := c.P
+	f := p.Func("astcomp", "(*compiler).compileExpList")
+	if f == nil || len(f.Params) < 3 {
+		r.broken("anchor unresolved: astcomp.(*compiler).compileExpList(exps, dstRegs)")
+		return r
+	}
+	exps := f.Params[1]
+	if _, ok := exps.Type().Underlying().(*types.Slice); !ok {
+		r.broken("compileExpList: the second parameter is no longer the expression slice")
+		return r
+	}
+	// slices of exps that are ranged over with the element handed to a call
+	iterated := func(sl ssa.Value) bool {
+		// an IndexAddr / Index on the slice inside a loop whose loaded element reaches a call
+		found := false
+		for _, ref := range *sl.Referrers() {
+			ia, ok := ref.(*ssa.IndexAddr)
+			if !ok {
+				continue
+			}
+			for _, r2 := range *ia.Referrers() {
+				ld, ok := r2.(*ssa.UnOp)
+				if !ok {
+					continue
+				}
+				for _, r3 := range *ld.Referrers() {
+					if _, ok := r3.(ssa.CallInstruction); ok {
+						found = true
+					}
+					if mi, ok := r3.(*ssa.MakeInterface); ok && mi.Referrers() != nil && len(*mi.Referrers()) > 0 {
+						found = true
+					}
+				}
+			}
+		}
+		return found
+	}
+	prefix, suffix, whole := false, false, false
+	if iterated(exps) {
+		whole = true
+	}
+	for _, ref := range *exps.Referrers() {
+		sl, ok := ref.(*ssa.Slice)
+		if !ok || sl.X != ssa.Value(exps) || !iterated(sl) {
+			continue
+		}
+		switch {
+		case sl.Low == nil && sl.High != nil:
+			prefix = true
+		case sl.Low != nil && sl.High == nil:
+			suffix = true
+		case sl.Low == nil && sl.High == nil:
+			whole = true
+		}
+	}
+	switch {
+	case whole || (prefix && suffix):
+		r.ok("compileExpList compiles the whole expression list (a prefix into the destination registers, the rest for its side effects)")
+	case prefix:
+		r.fail("extra-expressions-not-evaluated", p.Pos(f.Pos()), "compileExpList only compiles the first min(len(exps), len(dstRegs)) expressions: in `local a = 1, f()` or `a, b = 1, 2, g()` the extra expressions are never evaluated, so their calls and other side effects do not happen")
+	default:
+		r.broken("compileExpList: no iteration over the expression list recognised (anchor moved?)")
+	}
+	return r
 }
